@@ -92,7 +92,10 @@ def evaluate(cfg, stim, backend="fast"):
 
 
 def shards(tier, seed):
-    return [dict(tier=tier, seed=seed * 1000 + i, idx=i, ndev=(2 if tier == "quick" else 10), ncases=(30 if tier == "quick" else 100)) for i in range(16)]
+    out = [dict(tier=tier, seed=seed * 1000 + i, idx=i, ndev=(2 if tier == "quick" else 10), ncases=(30 if tier == "quick" else 100)) for i in range(16)]
+    for i in range(8 if tier == "quick" else 16):
+        out.append(dict(kind="core", tier=tier, seed=seed * 1000 + 500 + i, idx=i, ncfg=(1 if tier == "quick" else 4), ncases=(8 if tier == "quick" else 20)))
+    return out
 
 
 def diff_selftest(cfg, stim, col):
@@ -121,7 +124,36 @@ def diff_selftest(cfg, stim, col):
     col.diff_cycles += len(tr["fast"])
 
 
+def run_core_shard(sh):
+    """the same property through crossbar.get_port(...) on the whole core (controller + reference DRAM)"""
+    from lib import coremc
+    from lib.coreprop import draw_examples
+    col = Collector(ID)
+    violation = None
+    want = "cdc" if sh["idx"] % 3 else "both"
+    for ci, cfg in enumerate(draw_examples(coremc.core_cfg(want), sh["ncfg"], sh["seed"])):
+        def t(stim, cfg=cfg):
+            r = coremc.run(cfg, stim)
+            fs = coremc.oracle(r, "C08")
+            kinds = sorted(set(coremc._kind(pc, 0) for pc in cfg["ports"]))
+            col.case(dict(cfg=cfg, stim=stim), classes=["core:" + k for k in kinds], nontrivial=True,
+                     sample=dict(whole_core=True, memtype=cfg["memtype"], ports=cfg["ports"], clocks=cfg.get("clocks"), ops_per_port=[len(o) for o in stim["ports"]], sys_cycles=r.cycles))
+            col.stats["simulated_core_cycles"] = col.stats.get("simulated_core_cycles", 0) + r.cycles
+            return col.filter(fs)
+        found = hyp_search(t, coremc.core_stim(cfg, 20 if sh["tier"] == "quick" else 40), sh["seed"] * 100 + ci, sh["ncases"], shrink=True)
+        if found:
+            stim, fs = found
+            fm = col.filter(coremc.oracle(coremc.run(cfg, stim, backend="migen"), "C08"))
+            if not any(f["clause"] == fs[0]["clause"] for f in fm):
+                raise HarnessError("C08 whole-core finding %s does not reproduce on migen.sim" % fs[0]["clause"])
+            violation = dict(case=dict(core=True, cfg=cfg, stim=stim), findings=fm, confirmed_on="migen.sim")
+            break
+    return col.result(violation)
+
+
 def run_shard(sh):
+    if sh.get("kind") == "core":
+        return run_core_shard(sh)
     from lib.coreprop import draw_examples
     col = Collector(ID)
     violation = None
@@ -153,5 +185,8 @@ def run_shard(sh):
 
 def replay(case):
     col = Collector(ID)
+    if case.get("core"):
+        from lib import coremc
+        return col.filter(coremc.oracle(coremc.run(case["cfg"], case["stim"], backend="migen"), "C08"))
     _, fm, _ = evaluate(case["cfg"], case["stim"], backend="migen")
     return col.filter(fm)
